@@ -149,6 +149,40 @@ def gen_scenario(rng, race=False):
     return lines, {"N": n, "addr": akind, "port": portmode, "poll": poll, "end": end, "K": k, "causes": causes}
 
 
+def gen_bulk_scenario(rng):
+    """The "bulk upload" family: >= 2 io threads, >= 2 raw peers that all start at once and each write one frame of
+    several MiB (the server's message callback leaves an incomplete frame in the input buffer, so after the first
+    append the buffer never has writable room and EVERY readv of every connection goes through Buffer::readFd's spill
+    area), the io threads therefore read concurrently for the whole scenario; the content check is the per-connection
+    running FNV of what the message callbacks were shown (stream-c2s) plus the echo of a small trailing frame.
+    State that the io threads must not share (the spill area, a static scratch buffer, a cached iovec ...) shows here."""
+    n = rng.choice([2, 2, 3])
+    k = rng.choice([2, 3]) if n == 2 else rng.choice([3, 4])
+    addr, v6, akind = rng.choice(ADDRS[:2])
+    poll = rng.randrange(2)
+    end = rng.choice(["quit", "inloop"])
+    portmode = rng.choice(["zero", "probe"])
+    lines = ["server threads=%d addr=%s v6=%d port=%s poll=%d end=%s reuseport=0 sndbuf=0" % (n, addr, v6, portmode, poll, end)]
+    budget = 9 << 20          # bytes per scenario (generation and hashing cost, not a limit of the library)
+    per = budget // k
+    for i in range(k):
+        steps = []
+        if rng.random() < 0.3:
+            steps.append("D:%d:%d" % (rng.randrange(1, 1 << 30), rng.choice([0, 1, 100, 4096])))
+        steps.append("D:%d:%d" % (rng.randrange(1, 1 << 30), rng.randrange(per // 2, per)))
+        if rng.random() < 0.5:
+            steps.append("E:%d:%d:%d:0:0" % (rng.randrange(1, 1 << 30), rng.choice([1, 100, 5000]), rng.randrange(3)))
+        steps.append("fin")
+        chunk = rng.choice([0, 0, 65536, 1 << 20])
+        lines.append("peer %d start=now rcvbuf=0 slow=0 chunk=%d steps=%s" % (i, chunk, ",".join(steps)))
+    return lines, {"N": n, "addr": akind, "port": portmode, "poll": poll, "end": end, "K": k, "causes": ["fin"] * k, "family": "bulk"}
+
+
+def is_bulk_slot(i):
+    """which scenarios of an exploration are taken from the bulk family: the first three, then every twelfth"""
+    return i < 3 or i % 12 == 0
+
+
 def run_scenario(exe, lines, timeout=150):
     """-> (status, fails, notes, out, err); status in PASS / FAIL / INCONCLUSIVE; fails = [(kind, details)]"""
     env = {"TSAN_OPTIONS": "halt_on_error=0 exitcode=66 second_deadlock_stack=1", "ASAN_OPTIONS": "detect_leaks=1"}
@@ -230,7 +264,11 @@ def explore(ctx, prop_id, n_quick=24, n_thorough=2000, budget_quick=12.0, budget
         if time.time() - t0 > budget or ctx.stop():
             break
         # every fourth scenario tears the server down while closes are still in flight
-        lines, info = gen_scenario(ctx.rng, race=(i % 4 == 3))
+        if is_bulk_slot(i):
+            lines, info = gen_bulk_scenario(ctx.rng)
+            ctx.count("server:family:bulk-upload")
+        else:
+            lines, info = gen_scenario(ctx.rng, race=(i % 4 == 3))
         flav = flavours[i % len(flavours)]
         status, fails, notes, out, err = run_scenario(exes[flav], lines)
         done += 1
